@@ -33,7 +33,7 @@ ANCHORS = ['recursiveloader:ManifestRecursiveLoader.save_manifest',
 REQUIRED = ['openpgp:SystemGPGEnvironment.clear_sign_file', 'late_retries',
             'signer_checked:second', 'expect:signed',
             'expect:plain', 'expect:failure', 'gpg_verify_runs', 'submanifests_read',
-            'behind_cases', 'overlong_line_cases_nonascii']
+            'behind_cases', 'overlong_line_cases_nonascii', 'corner_cases']
 ASSUMPTIONS = ['GnuPG 2.2 with gpg-agent; vendored test key (tests/keydata.py)',
                'on a signing failure the top-level file may be left empty/truncated; a '
                'plain Manifest WITH entries counts as silently unsigned']
@@ -519,7 +519,87 @@ def exec_behind(ctx, case):
             os.environ.pop('GNUPGHOME', None)
 
 
+def exec_corner(ctx, case):
+    """Two corners of "a signed tree stays signed": (presave) the top-level Manifest
+    saved once through save_manifest() on a long-lived loader, then an edit, an update
+    and save_manifests() - the saved message must be a signature over the NEW entries;
+    (empty) a tree without any file: `create -s` in an empty directory, and a signed
+    tree whose last file is removed and which is then updated with the sign option
+    unset - the (entry-less) top-level Manifest is still a signed message."""
+    from gemato.openpgp import SystemGPGEnvironment
+    from gemato.recursiveloader import ManifestRecursiveLoader
+    from gemato import cli as gcli
+    h = home('secret')
+    with common.Scratch('vf-c14c-') as d:
+        root = os.path.join(d, 't')
+        os.makedirs(root)
+        os.environ['GNUPGHOME'] = h.dir
+        top = os.path.join(root, 'Manifest')
+        ctx.case(sig=('corner', case['what'], case.get('api')), case=case,
+                 klass='corner')
+        try:
+            if case['what'] in ('presave', 'last-file-removed'):
+                with open(os.path.join(root, 'a'), 'wb') as f:
+                    f.write(b'1')
+            if case['what'] == 'presave':
+                with open(os.path.join(root, 'b'), 'wb') as f:
+                    f.write(b'22')
+            rc = gcli.main(['gemato', 'create', '--hashes', 'SHA256', '-s', '-k',
+                            keys.KEY_ID, root])
+            if rc != 0:
+                ctx.count('harness_error')
+                return
+            if case['what'] == 'presave':
+                env = SystemGPGEnvironment()
+                m = ManifestRecursiveLoader(top, verify_openpgp=True, openpgp_env=env,
+                                            hashes=['SHA256'])
+                m.save_manifest('Manifest')
+                with open(os.path.join(root, 'a'), 'wb') as f:
+                    f.write(b'changed-content')
+                if case['api'] == 'path':
+                    m.update_entry_for_path('a')
+                else:
+                    m.update_entries_for_directory('')
+                m.save_manifests()
+            elif case['what'] == 'last-file-removed':
+                os.unlink(os.path.join(root, 'a'))
+                rc = gcli.main(['gemato', 'update', '--hashes', 'SHA256', root])
+                if rc != 0:
+                    ctx.count('corner_update_failed')
+                    return
+            ctx.count('corner_cases')
+            with open(top) as f:
+                text = f.read()
+            if not is_signed_text(text):
+                ctx.violation('signed-tree-written-plain:' + case['what'],
+                              'signing was requested / inherited and the top-level '
+                              'Manifest on disk is plain (%d bytes)' % len(text), case)
+                return
+            rc, out, status = h.decrypt(text.encode('utf8'))
+            if rc != 0 or 'GOODSIG' not in status:
+                ctx.violation('saved-signature-does-not-verify:' + case['what'],
+                              'gpg rc %r' % (rc,), case)
+                return
+            if case['what'] == 'presave':
+                ents = mtext.parse(out.decode('utf8'))
+                sizes = {e['path']: e['size'] for e in ents if e['tag'] == 'DATA'}
+                if sizes.get('a') != len(b'changed-content'):
+                    ctx.violation('signature-over-stale-entries:presave',
+                                  'the signed cleartext lists a with size %r, the file '
+                                  'has %d bytes (top-level saved once before the edit '
+                                  'on the same loader)' % (sizes.get('a'),
+                                                           len(b'changed-content')), case)
+        except Exception as exc:
+            ctx.violation('corner-raises:' + adapt.exc_key(exc), '%s raised %r'
+                          % (case['what'], exc), case)
+        finally:
+            os.environ.pop('GNUPGHOME', None)
+
+
 def run_behind(u, ctx):
+    for what, api in (('presave', 'path'), ('presave', 'dir'), ('empty', None),
+                      ('last-file-removed', None)):
+        exec_corner(ctx, {'kind': 'corner', 'what': what, 'api': api, 'i': u['i']})
     for start in ('unsigned', 'signed'):
         for reloads in ((1, 2) if start == 'unsigned' else (0, 1)):
             for edit in ('a', 'sub/b'):
@@ -548,6 +628,8 @@ def run_unit(u, ctx):
 def replay(case, ctx):
     if case.get('kind') == 'behind':
         return exec_behind(ctx, case)
+    if case.get('kind') == 'corner':
+        return exec_corner(ctx, case)
     with common.Scratch('vf-c14-') as d:
         root = os.path.join(d, 't')
         scenario.rebuild(root, case)
